@@ -425,7 +425,14 @@ func (s *HTTPService) ServeHTTP(w http.ResponseWriter, r *http.Request) {
 		return
 	}
 
-	switch DWIMURI(ctx, m["uri"].(string)) { // Sorry.
+	uri, ok := m["uri"].(string)
+	if !ok {
+		// (A JSON or YAML body can carry a 'uri' of its own.)
+		protest(ctx, fmt.Errorf("need a string uri, not a %T", m["uri"]), w)
+		return
+	}
+
+	switch DWIMURI(ctx, uri) { // Sorry.
 	case "/api/sys/admin/connstates":
 		counts := s.connStates.Get()
 		js, err := json.Marshal(&counts)
